@@ -4,5 +4,6 @@ CONSTANTS
   MaxSig = 2
   Devs = {}
   Gen = FALSE
+  DocSubset = "no"
 INVARIANTS RuleSatisfiesProp DkimPassIffGood SpfEarlyNeverBody
 CHECK_DEADLOCK FALSE
